@@ -105,6 +105,7 @@ static ForkOut fork_check (const Profile &prof, const J &plan, int warm = 0, uin
 	{	close (pfd [0]) ;
 		int efd = open (errp, O_WRONLY | O_CREAT | O_TRUNC, 0644) ;
 		if (efd >= 0) { dup2 (efd, 2) ; close (efd) ; }
+		init_zygote () ;
 		install_watchdog (g_fork_wd) ;
 		g_os = new SimOS ;
 		for (int k = 0 ; k < warm ; k++) { J p = prof.gen (warm_seed, 777000 + k) ; prof.check (p) ; }
@@ -269,6 +270,7 @@ struct Stats
 
 static void worker_main (const Profile &prof, uint64_t seed, uint64_t first, uint64_t stride, uint64_t end, const std::string &outpath, volatile int64_t *slot, int max_findings, char *planbuf)
 {	g_slot = slot ; g_plan_buf = planbuf ;
+	init_zygote () ;		// before this process first touches the library
 	install_watchdog (30) ;
 	g_os = new SimOS ;
 	FILE *out = fopen (outpath.c_str (), "wb") ;
